@@ -35,8 +35,22 @@ def record(sid: str, variant: int = 0) -> Optional[dict]:
             e = {'ev': _ev, 't': int((time.monotonic() - t0) * 1000)}
             e.update(kw)
             events.append(e)
+    # real time is not exact: a heartbeat measures by how much this process is kept waiting for a processor; a history recorded
+    # while it was starved for longer than the margins of the contract is not judged (reported as skipped in the evidence)
+    lag = {'max': 0.0, 'stop': False}
+
+    def heartbeat() -> None:
+        while not lag['stop']:
+            a = time.monotonic()
+            time.sleep(0.02)
+            lag['max'] = max(lag['max'], time.monotonic() - a - 0.02)
+    threading.Thread(target=heartbeat, daemon=True).start()
     if variant == 3:
-        return record_foreign_loop(sid, ev, events)
+        r = record_foreign_loop(sid, ev, events)
+        lag['stop'] = True
+        if r is not None and lag['max'] > 0.4:
+            return {'id': sid, 'events': [], 'starved_ms': int(lag['max'] * 1000)}
+        return r
     try:
         zcs = {'A': Zeroconf(interfaces=['127.0.0.1']), 'B': Zeroconf(interfaces=['127.0.0.1'])}
     except Exception:  # noqa: BLE001
@@ -182,6 +196,9 @@ def record(sid: str, variant: int = 0) -> Optional[dict]:
         ev('exc', what=type(ex).__name__, msg=str(ex)[:100])
     time.sleep(1.0)
     ev('end')
+    lag['stop'] = True
+    if lag['max'] > 0.4:
+        return {'id': sid, 'events': [], 'starved_ms': int(lag['max'] * 1000)}
     return {'id': sid, 'events': events}
 
 
@@ -257,9 +274,12 @@ def run(ctx: Any, own: str, variants: Any = None) -> None:
     sids = ['%s-syncapi-%d' % (own.lower(), v) for v in variants]
     with ThreadPoolExecutor(len(sids)) as ex:
         got = list(ex.map(lambda p: record_in_subprocess(p[0], p[1]), zip(sids, variants)))
+    starved = []
     for sid, tr in zip(sids, got):
         if tr is None:
             skipped.append(sid)
+        elif tr.get('starved_ms'):
+            starved.append({'id': sid, 'max_scheduling_lag_ms': tr['starved_ms']})
         else:
             traces.append(tr)
     rejected: Dict[str, int] = {}
@@ -277,8 +297,8 @@ def run(ctx: Any, own: str, variants: Any = None) -> None:
             e = evs[pos - 1] if 0 < pos <= len(evs) else None
             ctx.report('%s/sync-api' % clause, '%s rejected event #%d of the synchronous-API history %s: %s' % (clause, pos, tid, e),
                        {'sync_api': tid, 'clause': clause, 'trace_tail': evs[max(0, pos - 12):pos]})
-    ctx.coverage['sync_api'] = {'histories': len(traces), 'skipped_no_real_socket': skipped, 'events': sum(len(t['events']) for t in traces),
-                                'rejections_by_clause': rejected,
+    ctx.coverage['sync_api'] = {'histories': len(traces), 'skipped_no_real_socket': skipped, 'skipped_machine_starved': starved,
+                                'events': sum(len(t['events']) for t in traces), 'rejections_by_clause': rejected,
                                 'what': 'two blocking Zeroconf instances (own loop threads) joined by an in-process link: register (probing), lookup, thread-based '
                                         'browser, update, lookup, unregister, lookup, close -- called from the application thread, real time; order and '
                                         'generous deadlines judged by TLC (Trace_SyncApi.tla)'}
